@@ -38,12 +38,37 @@ var solvers = []solverSpec{
 }
 
 func (fx *FuncCtx) query(ob *Obligation, probes []string) string {
+	return fx.queryWith(ob, probes, "")
+}
+
+func (fx *FuncCtx) queryWith(ob *Obligation, probes []string, hyp string) string {
 	var b bytes.Buffer
 	b.WriteString("(set-option :produce-models true)\n(set-logic ALL)\n")
 	b.WriteString(fx.preludeText)
+	var uses map[string]bool
+	if ob.Clause != nil && fx.ct != nil && fx.ct.Uses != nil && ob.Kind != "inv-entry" {
+		if list, ok := fx.ct.Uses[ob.Clause.Label]; ok {
+			uses = map[string]bool{"inv." + ob.Clause.Label: true}
+			for _, u := range list {
+				uses[u] = true
+			}
+		}
+	}
 	for _, l := range fx.lines[:ob.Prefix] {
+		if uses != nil {
+			if i := strings.LastIndex(l, ";@hyp:"); i >= 0 && !uses[l[i+6:]] {
+				// hypothesis hidden from this obligation (sound: fewer assumptions);
+				// lemmas (hint.*) stay visible unless the list says -hints
+				if !strings.HasPrefix(l[i+6:], "hint.") || uses["-hints"] {
+					continue
+				}
+			}
+		}
 		b.WriteString(l)
 		b.WriteByte('\n')
+	}
+	if hyp != "" && hyp != "true" {
+		b.WriteString("(assert " + hyp + ")\n")
 	}
 	if ob.Cover {
 		b.WriteString("(assert " + and(ob.Reach, ob.Goal) + ")\n")
@@ -82,9 +107,35 @@ func runSolver(ctx context.Context, s solverSpec, file string, ms int) (status, 
 	return "unknown", out, dur
 }
 
-// solve discharges one obligation with the solver portfolio.
+// solve discharges one obligation; obligations with path hypotheses are first tried as a
+// whole (short), then once per path: every path must be discharged.
 func solve(workDir string, idx int, fx *FuncCtx, ob *Obligation, probes []string, timeoutMs int, stringsTheory bool) *Result {
-	q := fx.query(ob, probes)
+	if len(ob.Paths) > 1 {
+		first := timeoutMs / 4
+		r := solveOne(workDir, idx, fx, ob, probes, first, stringsTheory, "")
+		if r.Status == "discharged" || r.Status == "refuted" {
+			return r
+		}
+		os.Remove(r.Query)
+		var total int64 = r.Ms
+		for k, h := range ob.Paths {
+			pr := solveOne(workDir, idx*100+k+1000000, fx, ob, probes, timeoutMs, stringsTheory, h)
+			total += pr.Ms
+			if pr.Status != "discharged" {
+				pr.Ms = total
+				pr.Detail = fmt.Sprintf("path %d of %d: %s %s", k+1, len(ob.Paths), truncate(h, 200), pr.Detail)
+				return pr
+			}
+			os.Remove(pr.Query)
+		}
+		r.Status, r.Solver, r.Ms = "discharged", "per-path", total
+		return r
+	}
+	return solveOne(workDir, idx, fx, ob, probes, timeoutMs, stringsTheory, "")
+}
+
+func solveOne(workDir string, idx int, fx *FuncCtx, ob *Obligation, probes []string, timeoutMs int, stringsTheory bool, hyp string) *Result {
+	q := fx.queryWith(ob, probes, hyp)
 	file := filepath.Join(workDir, fmt.Sprintf("q%05d.smt2", idx))
 	os.WriteFile(file, []byte(q), 0o644)
 	res := &Result{Ob: ob, Query: file}
